@@ -251,6 +251,8 @@ impl TDigestMut {
         for &c in &other.centroids {
             tmp.push(c);
         }
+        self.min = self.min.min(other.min);
+        self.max = self.max.max(other.max);
         self.do_merge(tmp, self.buffer.len() as u64 + other.total_weight())
     }
 
